@@ -47,6 +47,7 @@ T_inter == << {"new"}, {"new"}, {"fit"}, {"predict", "fit"}, {"fit", "predict"},
 T_obs   == << {"new"}, {"fit"}, {"predict"}, {"predict"}, {"predict"}, {"predict"} >>
 T_warm  == << {"other", "new"}, {"other", "new"}, {"new", "fit"}, {"fit", "other"}, {"fit", "predict"}, {"predict"} >>
 \* every operation allowed at every position: explored by random simulation (tlc -simulate), not exhaustively
-AllOps == {"new", "fit", "predict", "sweep", "save", "load", "restart", "readdf", "scribble", "other"}
-T_free  == [k \in 1..14 |-> AllOps]
+\* (`tlc -simulate` picks uniformly among the successor states, so the first two calls are pinned to get models into play)
+FreeOps == {"new", "fit", "predict", "save", "load", "restart", "readdf", "scribble"}
+T_free  == << {"new"}, {"new", "fit"} >> \o [k \in 1..10 |-> FreeOps]
 =============================================================================
